@@ -196,6 +196,23 @@ def r_tag(sh, rep):
                     via = defs.get(root.group(1), "") if root else ""
                     ok = "data_type.decorators" in recv or "data_type.decorators" in via
                     rep.check(ok, "R12-TAG", "%s#tag-lookup-includes-type-level-decorators" % q.split("::")[-1], sh.loc(rel, c), "%s looks for @tag in `%s` only: a record type that carries `@tag(n)` on the type itself is built and published with index n (get_constr_index_variant / Data::from_data_type read the type's decorators) but this site falls back to the position, so the three implementations disagree on the constructor index" % (q, recv[:60]), sample={"searched": recv[:80]})
+    # who may turn a constructor *name* into an index: only code that also looks at @tag. Any other place of the code
+    # generator that takes the position of a constructor in `data_type.constructors` matches / builds by declaration
+    # order while constructors are built by tag.
+    owners = 0
+    for rel in sh.files():
+        if not rel.startswith("crates/aiken-lang/src/gen_uplc"):
+            continue
+        for q, fn in all_fns(sh.file(rel)):
+            if "body" not in fn:
+                continue
+            for c in walk(fn["body"]):
+                if c["k"] == "MethodCall" and c["m"] in ("position", "find_position", "rposition", "enumerate") and "constructors" in sh.nsrc(rel, c["recv"]):
+                    reads_tag = "DecoratorKind::Tag" in sh.nsrc(rel, fn["body"])
+                    owners += 1 if reads_tag else 0
+                    rep.check(reads_tag, "R12-TAG", "%s#constructor-position-without-@tag" % q.split("::")[-1], sh.loc(rel, c), "%s derives a constructor's index from its position in the declaration (`%s.%s`) in a function that never reads @tag: for a type with `@tag(n)` the index used here differs from the one the constructor is built with, and a `when` runs the wrong clause" % (q, sh.nsrc(rel, c["recv"])[-50:], c["m"]), why_ok="reads DecoratorKind::Tag in the same function", sample={"fn": q})
+    if owners < 2:
+        rep.bad("R12-TAG", "constructor-position-sites", GB, "expected get_constr_index_variant and expect_type_assign to enumerate constructors while reading @tag (found %d): the detector may be blind (anchor)" % owners)
     if n_sites < 3:
         rep.bad("R12-TAG", "tag-sites#found", GEN, "expected three @tag lookups (schema generator, get_constr_index_variant, expect decoder), found %d" % n_sites)
 
